@@ -81,10 +81,12 @@ def post_init(call):
     tag = '%s/flags%d%d' % (lc, bool(a['large_arc']), bool(a['sweep']))
     # --- radii ----------------------------------------------------------
     rx, ry = self.radius.real, self.radius.imag
-    if abs(ref.lam - 1) < 1e-12:
-        ok = abs(rx - ref.rx) <= 4e-12 * ref.rx and abs(ry - ref.ry) <= 4e-12 * ref.ry
+    if abs(ref.lam - 1) < 1e-9:
+        ok = abs(rx - ref.rx) <= 4e-9 * ref.rx and abs(ry - ref.ry) <= 4e-9 * ref.ry
     elif ref.scaled:
-        ok = abs(rx - ref.rx) <= 64 * EPS * ref.rx and abs(ry - ref.ry) <= 64 * EPS * ref.ry
+        # Lambda is a sum of squares of rotated half-chords over radii: for eccentric, rotated ellipses the rotation
+        # cancels digits (up to ~eccentricity), so "exactly the minimal factor" is demanded to 1e-10, not to a few ulp
+        ok = abs(rx - ref.rx) <= 1e-10 * ref.rx and abs(ry - ref.ry) <= 1e-10 * ref.ry
     else:
         ok = (rx == abs(rx0) and ry == abs(ry0))
     if not ok:
